@@ -71,6 +71,16 @@ def main():
                 with torch.no_grad():
                     y = Fn.linear(qx, qw, b)
                 r["cls"] = type(y).__name__
+                # a result must not be overwritten by a later call with operands of the same shapes
+                snap = y.clone()
+                with torch.no_grad():
+                    if isinstance(qx, QTensor):
+                        qx2 = quantize_activation(-x * 0.5, qx.qtype, qx._scale)
+                    else:
+                        qx2 = -x * 0.5
+                    y2 = Fn.linear(qx2, qw, b)
+                r["result_stable"] = bool(torch.equal(y, snap))
+                del y2
                 r.update(stats(y, ref, absref))
                 r["K"] = inf
                 # all internal routes on the same 8-bit operands must agree with the reference as well
